@@ -377,11 +377,15 @@ PROPS["C19"] = dict(
          "paths), and generated directories of 1-4 uniformly zero-padded multi-frame sequences + frame-less / hidden files + "
          "sub-directories, basenames that themselves hold pad characters / range-like text / printf tokens, frame numbers beyond "
          "32 bits, and (one op in four) a directory whose own name holds pad characters, digits, dots or a space "
-         "(x.scan over the 4 option subsets x 2 styles, x.find over 8 pattern forms), each materialised by each "
-         "implementation in its own temp directory. The property fails on an op when a field inside the domain (numbers within a "
+         "(x.scan over the 4 option subsets x 2 styles, x.find over 8 pattern forms, one in four from INSIDE the directory with a "
+         "pattern that has no directory part), each materialised by each implementation in its own temp directory; membership "
+         "is also asked of the normalised and inverted sets; numerals, steps and frame queries at LONG_MIN / LONG_MAX; a failing "
+         "scan followed in the same process by a scan without sequences and a lookup without match; x.global: three sequences "
+         "the driver (linked first) constructs during static initialisation. The port and the driver are built with UBSan "
+         "(undefined behaviour stops the driver at the operation). The property fails on an op when a field inside the domain (numbers within a "
          "long, >= 1 frame, sequence has a basename / extension / range) differs between the two real implementations; "
          "non-trivial = any distinct op, class = op x in/outside the domain",
-    assumptions=["std::regex (ECMAScript) vs RE2 and the port's directory scan are tied by correspondence only",
+    assumptions=["std::regex (ECMAScript) vs RE2, readdir / stat and std::map order are tied by correspondence only (the scan and the lookup themselves are modelled: Cpp.scan, Cpp.find)",
                  "numbers outside a C long (std::stol throws) and ranges denoting no frame are outside the property's domain",
                  "frame paths for string-typed frames (FileSequence::frame(std::string)) are not part of the compared observation"],
     trusted=["g++ / libstdc++ (std::regex, streams, strtol) are trusted; the C++ driver (cppdriver/main.cpp) is part of the trusted harness"],
